@@ -375,7 +375,7 @@ func runBatch(p *Prop, root, scratch, tier string, seed uint64, b int) *batchRes
 			res.incs = append(res.incs, "watchdog")
 			// keep the goroutine dump for triage
 			os.MkdirAll(filepath.Join(root, "replays", p.ID), 0o755)
-			os.WriteFile(filepath.Join(root, "replays", p.ID, fmt.Sprintf("watchdog-%d-b%d-c%d.txt", seed, b, wal.I)), []byte(string(wal.Desc)+"\n\n"+tail), 0o644)
+			os.WriteFile(filepath.Join(root, "replays", p.ID, fmt.Sprintf("watchdog-%d-b%d-c%d.txt", seed, b, wal.I)), []byte(string(wal.Desc)+"\n\n"+tailFile(errPath, 600000)), 0o644)
 		} else {
 			res.viols = append(res.viols, violation{Batch: b, Idx: wal.I, Sig: p.ID + ":process-died:" + crashFrame(tail),
 				Detail: jsonStr(fmt.Sprintf("worker process died while this case was in flight (%v)", werr)), Desc: wal.Desc, Stderr: tail})
